@@ -84,6 +84,37 @@ func rulesC14(e *Engine, r *Report) {
 		r.Check(ok, "R14.1", "http.(*confirmable).GetName returns the validated field", e.Pos(fn.Pos()), "the name handed to the gatekeeper is not the validated field", 1)
 	}
 
+	// ---------------------------------------------------------------- R14.1e
+	r.Rule("R14.1e", "nothing is rewritten between validation and use: the names the data route hands to the gatekeeper (Partial.Name, Renamed, Prev) are the direct results of the validated parts' getters - no split/join/replace after validateParts -, and the only place that rewrites names (separator conversion in the decoder and in the validate route) runs BEFORE the names are validated")
+	if fn := needFn(e, r, "R14.1e", "http.(*Server).routeData"); fn != nil {
+		part := "invoke(sts.PayloadDecoder.GetParts)(§)[phi((phi# + 1)|0)]"
+		for fld, getter := range map[string]string{"Name": "GetName", "Renamed": "GetRenamed", "Prev": "GetPrev"} {
+			vals := e.fieldStoreVals(fn, "sts.Partial", fld)
+			r.Check(len(vals) == 1 && pat("invoke(sts.Binned."+getter+")("+part+")").MatchString(vals[0]), "R14.1e", "http.(*Server).routeData: Partial."+fld+" is the validated part's "+getter+"() unchanged", e.Pos(fn.Pos()),
+				"a name is transformed after it was validated (validation of one spelling, use of another): "+strings.Join(vals, " | "), 1, vals...)
+		}
+		// no string surgery on request-derived names anywhere in the handler after validation
+		var surgery []string
+		for _, in := range e.findInstrs(fn, "call(«(filepath.Join|strings.Split|strings.Replace|strings.ReplaceAll|path.Join|filepath.Clean|url.PathUnescape|url.QueryUnescape)»)(§)", false) {
+			surgery = append(surgery, shorten(e.InstrStr(in)))
+		}
+		r.Check(len(surgery) == 0, "R14.1e", "http.(*Server).routeData: no path surgery in the handler", e.Pos(fn.Pos()), "the data route rewrites path strings itself: "+strings.Join(surgery, "; "), 1, surgery...)
+	}
+	if fn := needFn(e, r, "R14.1e", "http.(*Server).routeDataRecovery"); fn != nil {
+		var surgery []string
+		for _, in := range e.findInstrs(fn, "call(«(filepath.Join|strings.Split|strings.Replace|strings.ReplaceAll|path.Join|filepath.Clean|url.PathUnescape|url.QueryUnescape)»)(§)", false) {
+			surgery = append(surgery, shorten(e.InstrStr(in)))
+		}
+		r.Check(len(surgery) == 0, "R14.1e", "http.(*Server).routeDataRecovery: no path surgery in the handler", e.Pos(fn.Pos()), "the recovery route rewrites path strings itself: "+strings.Join(surgery, "; "), 1, surgery...)
+	}
+	// the decoder (which converts) is constructed before validateParts runs on its parts
+	for _, name := range []string{"http.(*Server).routeData", "http.(*Server).routeDataRecovery"} {
+		if fn := e.Fn(name); fn != nil {
+			vp := e.findInstrs(fn, "call(http.validateParts)(invoke(sts.PayloadDecoder.GetParts)(dyn(p0.DecoderFactory)(§)#0))", false)
+			r.Check(len(vp) == 1, "R14.1e", name+": what is validated is the decoder's (already converted) part list", e.Pos(fn.Pos()), "validateParts is not applied to the decoder's part list", 1)
+		}
+	}
+
 	// ---------------------------------------------------------------- R14.1b
 	r.Rule("R14.1b", "the validators are real: validateNames returns nil only if filepath.IsLocal holds for the required name and for every non-empty optional name; validateParts returns nil only after every part's name, rename target and predecessor went through validateNames")
 	if fn := needFn(e, r, "R14.1b", "http.validateNames"); fn != nil {
